@@ -46,12 +46,22 @@ class C17(Check):
                 (7, 2, 2), (7, 3, 2), (6, 2, 3), (6, 4, 2), (8, 2, 1), (5, 4, 3)]
 
     def configs(self, tier):
-        return [Config('ch_T%d_K%d_n%d' % s, self.ch, {'T': s[0], 'K': s[1], 'n': s[2]}, witness_every=1,
+        cfgs = [Config('ch_T%d_K%d_n%d' % s, self.ch, {'T': s[0], 'K': s[1], 'n': s[2]}, witness_every=1,
                        prove_timeout_ms=60000, nonlinear=True) for s in self._shapes(tier)]
+        # the same windows handed over as an INTEGER array (count data): the index is still a real number
+        for s in ([(3, 2, 1), (4, 2, 1)] if tier == 'quick' else [(3, 2, 1), (4, 2, 1), (5, 2, 1), (4, 3, 1), (4, 2, 2)]):
+            cfgs.append(Config('ch_int_data_T%d_K%d_n%d' % s, self.ch, {'T': s[0], 'K': s[1], 'n': s[2], 'data_kind': 'int'},
+                               witness_every=3, prove_timeout_ms=60000, nonlinear=True, split=3))
+        return cfgs
 
-    def ch(self, c, T, K, n):
+    def ch(self, c, T, K, n, data_kind='real'):
         Rp = self.R
-        data = stubs.sym_array(c, 'x', (T, n), writeable=False)
+        if data_kind == 'int':
+            data = stubs.sym_array(c, 'x', (T, n), kind='int', lo=-3, hi=3, writeable=False)
+            c.notes['data_dtype'] = 'int64'
+        else:
+            data = stubs.sym_array(c, 'x', (T, n), writeable=False)
+            c.notes.pop('data_dtype', None)
         labels = [c.int('l_%d' % i, 0, K - 1) for i in range(T)]
         args = states.user_args(Rp, K, biased=True)
         st = states.fitted_state(Rp, c, K, n, labels, data, args, fit=False)
